@@ -13,6 +13,7 @@ import (
 	"fmt"
 	"os"
 	"reflect"
+	"regexp"
 	"sort"
 	"strings"
 	"testing"
@@ -101,7 +102,11 @@ var c20Texts = []string{
 	"http://h:80/p", "-3", "v1", "v2", "v3", "Z", "off", "0o17", "2001-01-01", "1_000", ".5", "+7", "0",
 }
 
-var c20SubKeys = []string{"a", "b", "c", "id", "type", "config", "n_k", "x_y_z", "k2", "r", "s", "t"}
+var c20SubKeys = []string{"a", "b", "c", "id", "type", "config", "n_k", "x_y_z", "k2", "r", "s", "t", "2fa", "9x"}
+
+// the driver's own notion of a list index (classification of generated cases must not
+// depend on the code under test)
+var c20IsNum = regexp.MustCompile(`^[0-9]+$`)
 
 func c20PathStr(p []c20Seg) string {
 	parts := make([]string, len(p))
@@ -340,7 +345,7 @@ func c20ShapeF3(vars []c20Var) bool {
 		var pre []string
 
 		for _, p := range parts {
-			if isNumRegex.MatchString(p) {
+			if c20IsNum.MatchString(p) {
 				in.idx = true
 
 				break
@@ -370,13 +375,13 @@ func c20ShapeF4(vars []c20Var) bool {
 	for _, v := range vars {
 		parts := strings.Split(c20Norm(v.Name), ".")
 		for i, p := range parts {
-			if !isNumRegex.MatchString(p) {
+			if !c20IsNum.MatchString(p) {
 				continue
 			}
 
 			n := 0
 			for _, q := range parts[i+1:] {
-				if isNumRegex.MatchString(q) {
+				if c20IsNum.MatchString(q) {
 					break
 				}
 
@@ -911,7 +916,7 @@ func TestVerifC20(t *testing.T) {
 			for _, v := range c.Env {
 				parts := strings.Split(c20Norm(v.Name), ".")
 				for i, p := range parts {
-					if isNumRegex.MatchString(p) {
+					if c20IsNum.MatchString(p) {
 						hasIdx = true
 						if i >= 2 {
 							nested = true
